@@ -272,7 +272,7 @@ def main():
 
     with open(os.path.join(OUT, "Variations.v"), "w") as f:
         f.write("(* GENERATED by tools/gen/gen_variations.py from %s - do not edit *)\n" % SRC)
-        f.write("From Coq Require Import List NArith String.\nImport ListNotations.\nOpen Scope N_scope.\n\n")
+        f.write("From Coq Require Import List NArith.\nImport ListNotations.\nOpen Scope N_scope.\n\n")
         f.write("(* wire kinds of the fields of fixed-size variations (the cursor call that reads/writes them) *)\n")
         f.write("Inductive fkind := FU8 | FU16 | FU32 | FU48 | FI16 | FI32 | FF32 | FF64.\n")
         f.write("Definition fwidth (k : fkind) : N :=\n  match k with FU8 => 1 | FU16 => 2 | FI16 => 2 | FU32 => 4 | FI32 => 4 | FF32 => 4 | FU48 => 6 | FF64 => 8 end.\n\n")
@@ -287,16 +287,18 @@ def main():
             else:
                 rows.append("  (%d, %s, Some [%s])" % (g, ex, "; ".join(str(v) for v in sorted(none))))
         f.write(";\n".join(rows) + "].\n\n")
-        f.write("Record fixed_info := { fi_g : N; fi_v : N; fi_name : string; fi_size : N;\n"
-                "  fi_read : list (string * fkind); fi_write : list (string * fkind) }.\n\n")
+        f.write("(* a field is named by its position in the struct declaration (0-based); names are in the comments *)\n")
+        f.write("Record fixed_info := { fi_g : N; fi_v : N; fi_size : N;\n"
+                "  fi_read : list (N * fkind); fi_write : list (N * fkind) }.\n\n")
         f.write("(* impl FixedSize: SIZE, fields in the order `read` reads them, fields in the order `write` writes them *)\n")
         f.write("Definition fixed_table : list fixed_info := [\n")
         rows = []
         for name, size, rf, wf in sorted(fixed, key=lambda x: gv[x[0]]):
             g, v = gv[name]
-            fl = lambda l: "[" + "; ".join('("%s"%%string, %s)' % (a, k) for a, k in l) + "]"
-            rows.append('  {| fi_g := %d; fi_v := %d; fi_name := "%s"%%string; fi_size := %d;\n     fi_read := %s;\n     fi_write := %s |}'
-                        % (g, v, name, size, fl(rf), fl(wf)))
+            decl = list(structs[name])
+            fl = lambda l: "[" + "; ".join("(%d, %s)" % (decl.index(a), k) for a, k in l) + "]"
+            rows.append("  (* %s { %s } *)\n  {| fi_g := %d; fi_v := %d; fi_size := %d;\n     fi_read := %s;\n     fi_write := %s |}"
+                        % (name, ", ".join("%d: %s" % (i, a) for i, a in enumerate(decl)), g, v, size, fl(rf), fl(wf)))
         f.write(";\n".join(rows) + "].\n")
     # side table for the other translators / the cross-check of tools/dnp_objects.py (not a Coq file)
     with open(os.path.join(OUT, "variations.json"), "w") as f:
